@@ -143,3 +143,48 @@ def _commutative_body(loop: ast.For) -> bool:
             continue
         return False
     return True
+
+
+_MUTABLE_CTORS = {'dict', 'list', 'set', 'defaultdict', 'collections.defaultdict', 'deque', 'collections.deque', 'OrderedDict',
+                  'collections.OrderedDict', 'Counter', 'collections.Counter', 'bytearray'}
+
+
+def class_level_mutables(ctx, prop):
+    """a mutable container bound in a class body is one object for all instances and for every run in the process: what
+    one simulation leaves in it (a parked packet, a sample) the next one finds.  The confirmed tree binds none; any is
+    reported (a class-level constant tuple / frozenset / number / string is not mutable and is fine)."""
+    rule = prop + '.S.class-level-state'
+    n = 0
+    for c in ctx.repo.all_classes():
+        if c.module.relpath in EXCLUDED:
+            continue
+        n += 1
+        bad = []
+
+        def walk(body):
+            for s in body:
+                v, names = None, []
+                if isinstance(s, ast.Assign):
+                    v, names = s.value, [t.id for t in s.targets if isinstance(t, ast.Name)]
+                elif isinstance(s, ast.AnnAssign) and s.value is not None and isinstance(s.target, ast.Name):
+                    v, names = s.value, [s.target.id]
+                elif isinstance(s, ast.If):
+                    if ast.unparse(s.test) != 'TYPE_CHECKING':
+                        walk(s.body)
+                    walk(s.orelse)
+                    continue
+                if v is None or not names:
+                    continue
+                mutable = isinstance(v, (ast.Dict, ast.List, ast.Set, ast.ListComp, ast.DictComp, ast.SetComp)) or (
+                    isinstance(v, ast.Call) and ast.unparse(v.func) in _MUTABLE_CTORS)
+                if mutable:
+                    bad.append((names[0], s.lineno, ast.unparse(v)[:40]))
+        walk(c.node.body)
+        ctx.ob(rule, not bad)
+        for nm, ln, txt in bad:
+            ctx.consulted.add(c.module.relpath)
+            ctx.violation(rule, '%s::%s' % (c.module.relpath, c.name), 'class-level %s = %s' % (nm, txt),
+                          '%s.%s = %s is bound in the class body: one object shared by every instance and every run in the process, '
+                          'so a second execution of the same program does not start from the same state' % (c.name, nm, txt),
+                          where='%s:%d' % (c.module.relpath, ln))
+    ctx.floor(rule, n, 40, 'classes scanned')
